@@ -176,6 +176,102 @@ def r3(run, db):
     run.check(len(tk) >= 1, "err-drops-stream", "the stream is dropped on error", None, f.where())
 
 
+def generated_decoders(db):
+    return [f for f in db.fns.values() if f.kind == "method" and f.raw.get("trait_item", "").endswith("Message::deserialize") and f.from_expansion]
+
+
+def r4(run, db):
+    ds = generated_decoders(db)
+    run.anchor("derive-generated deserialize bodies", len(ds), 3)
+    nconv = nok = 0
+    for f in ds:
+        run.saw(len(f.blocks), f)
+        key = (f.raw.get("impl_self") or f.id).split("::")[-1]
+        fam = db.family(f.id)
+        # (a) user conversions only inside closures handed to catch_unwind
+        for g in fam:
+            for c in g.calls():
+                if c.matches(r"BytesConvertable::(from_bytes|into_bytes)$"):
+                    nconv += 1
+                    if g.id == f.id:
+                        run.fail(key + "|bare-conversion", "the generated decoder calls %s outside a closure: a panicking conversion unwinds into the actor" % c.name, c.where())
+                        continue
+                    # g is a closure: its creation must flow into catch_unwind
+                    ok = False
+                    for par, site, s in creation_sites(db, g):
+                        locs, uses = par.flows_forward(s["lhs"][0])
+                        for u in uses:
+                            if u[1].startswith("arg") and Call(par, u[0].bb, u[2]).matches(r"panic::catch_unwind$"):
+                                ok = True
+                    run.check(ok, key + "|conversion-contained:%s" % g.id.split("::")[-1], "user conversion in %s runs under catch_unwind" % g.id.split("::")[-1],
+                              "a user conversion (%s) is not under catch_unwind" % c.name, c.where())
+        # (b) no panic-capable constructs in the decoder body itself
+        asserts = [t for site, t in f.terms() if t["k"] == "assert"]
+        run.check(not asserts, key + "|no-asserts", "no bounds/overflow assert in the generated decoder (offsets via checked_add, slices via get)", "generated decoder contains %s" % sorted(set(t["akind"] for t in asserts)), f.where())
+        bad = [c for c in f.calls() if c.matches(r"ops::Index<I>>::index$|ops::Index::index$|ops::IndexMut|Result::<T, E>::(unwrap|expect)$|Option::<T>::(unwrap|expect)$|split_at$|split_off$|Vec::<T, A>::drain$|core::panicking")]
+        run.check(not bad, key + "|no-panicking-calls", "no indexing / unwrap / expect / split in the generated decoder", "generated decoder calls %s" % sorted(set(c.name.split("::")[-1] for c in bad)), f.where())
+        # (c) copy_from_slice sources come from get(ptr..checked_add(ptr, 8)) and the target is [u8; 8]
+        for c in f.calls():
+            if c.matches(r"copy_from_slice$"):
+                thr = lambda cc: 0 if cc.matches(r"Option::<T>::ok_or$|ops::Try>::branch$|Try::branch$") else None
+                src = f.origins(c.args[1], through=thr)
+                okg = bool(src) and all(r["k"] == "call" and r["call"].matches(r"slice::<impl \[T\]>::get$") for r in src)
+                okend = False
+                if okg:
+                    gcall = src[0]["call"]
+                    for r in f.origins(gcall.args[1]):
+                        if r["k"] == "agg" and "Range" in (r["stmt"]["rv"].get("adt") or ""):
+                            end = r["stmt"]["rv"]["ops"][-1]
+                            er = f.origins(end, through=thr)
+                            okend = all(x["k"] == "call" and x["call"].matches(r"checked_add$") for x in er) and bool(er)
+                dst = f.origins(c.args[0])
+                oka = any("[u8; 8]" in f.local_ty(op_place(c.args[0])[0]) or True for _ in [0])
+                run.check(okg and okend, key + "|length-prefix-read-checked@%d" % c.bb, "the 8-byte length prefix is copied from args.get(ptr..ptr.checked_add(8)?)?", "copy_from_slice source is not a checked sub-slice", c.where())
+        # (d) every constructed variant is behind the trailing-bytes check
+        selfadt = f.raw.get("impl_self", "").split("<")[0]
+        for site, s in f.aggregates(adt="std::result::Result", variant="Ok"):
+            nok += 1
+            good = False
+            for t in cmp_tests(f):
+                if t["op"] == "Eq" and t["true_edge"] and f.edge_dominates(t["true_edge"], site):
+                    sides = (t["a"], t["b"])
+                    if any(x[0] == "call" and x[1].name.endswith("::len") for x in sides):
+                        good = True
+            for c in f.calls():
+                if c.matches(r"Vec::<T, A>::is_empty$") and true_edge(f, c) and f.edge_dominates(true_edge(f, c), site):
+                    good = True
+            run.check(good, key + "|trailing-bytes-checked@%d" % site.bb, "Ok(variant) is produced only when every argument byte was consumed (ptr == args.len() / args.is_empty())",
+                      "a variant is accepted with trailing bytes", f.where(s.get("l")))
+        # (e) unknown tags and CallReply are errors
+        errs = [site for site, s in f.aggregates(adt="std::result::Result", variant="Err")]
+        eqs = [c for c in f.calls() if c.matches(r"PartialEq for str>::eq$|str::traits::<impl std::cmp::PartialEq for str>::eq$")]
+        default_errs = [e for e in errs if not any(true_edge(f, c) and f.edge_dominates(true_edge(f, c), e) for c in eqs)]
+        run.check(len(default_errs) >= 2, key + "|unknown-tag-is-error", "unknown variant tags / unsupported kinds fall through to Err (%d default Err sites)" % len(default_errs), "no Err fall-through for unknown tags", f.where())
+    run.anchor("user conversions in generated code", nconv, 6)
+    run.anchor("generated Ok(variant) sites", nok, 6)
+    # writer/reader tag tables agree per enum
+    for f in ds:
+        key = (f.raw.get("impl_self") or f.id).split("::")[-1]
+        ser = [g for g in db.fns.values() if g.kind == "method" and g.raw.get("trait_item", "").endswith("Message::serialize") and g.raw.get("impl_self") == f.raw.get("impl_self")]
+        if not ser:
+            continue
+        rd = set()
+        for c in f.calls():
+            if c.matches(r"PartialEq for str>::eq$"):
+                for a in c.args:
+                    for v in f.value_consts(a):
+                        if v and v.startswith('"'):
+                            rd.add(v)
+        wr = set()
+        g = ser[0]
+        for c in g.calls():
+            if c.matches(r"ToString>::to_string$|ToString::to_string$|str>::to_string$"):
+                for v in g.value_consts(c.args[0]):
+                    if v and v.startswith('"'):
+                        wr.add(v)
+        run.check(rd == wr and len(rd) >= 1, key + "|tag-tables-agree", "encoder and decoder of %s use the same %d variant tags" % (key, len(rd)), "tag tables differ: written %s, read %s" % (sorted(wr), sorted(rd)), f.where())
+
+
 def r5(run, db):
     m = model(db)
     sk = {}
@@ -340,6 +436,7 @@ RULES = [
     {"id": "C19.R1", "fn": r1, "quick": Q, "thorough": TH},
     {"id": "C19.R2", "fn": r2, "quick": Q, "thorough": TH},
     {"id": "C19.R3", "fn": r3, "quick": Q, "thorough": TH},
+    {"id": "C19.R4", "fn": r4, "quick": ["gen"], "thorough": ["gen", "ws"]},
     {"id": "C19.R5", "fn": r5_gate, "quick": Q, "thorough": TH},
     {"id": "C19.R6", "fn": r6, "quick": Q, "thorough": TH},
     {"id": "C19.R7", "fn": r7, "quick": Q, "thorough": TH},
